@@ -42,7 +42,7 @@ from mc import spaces as S
 from mc.ref import optim_ref as R
 
 PROPERTY = 'C12'
-BUDGET = {'quick': 600, 'thorough': 3600}
+BUDGET = {'quick': 1500, 'thorough': 3600}
 INF = float('inf')
 
 MV = [-1, 0, 1, 2]                    # matrix entry alphabet
